@@ -100,7 +100,7 @@ func genC20(out, tier string, rng *rand.Rand) {
 	// each followed by a listing and reads of the seeded table
 	for _, en := range engines() {
 		for _, nm := range [][2]string{{parentA, ""}, {parentA, "t 1"}, {parentA, "-t"}, {parentA, ".t"}, {parentA, "t.1-_x"}, {parentA, "T1"}, {parentA, "t1/"}, {parentA, "t2/../t1"}, {parentA, ".."}, {parentA, "."},
-			{parentA, "./t1"}, {parentA, "t1/sub"}, {parentA, "nul\x00byte"}, {parentA, "caf\xc3\xa9"}, {"", "t9"}, {".", "t9"}, {"/abs", "t9"}, {"../x", "t9"}, {"plain", "t9"}, {"projects/p/instances", "t9"}, {"projects//instances/i", "t9"}, {"projects/p/instances/i/", "t9"}, {"projects/p/instances/i/tables/t1", "t9"}, {"projects/../instances/i", "t9"}, {"projects/p/instances/.", "t9"}, {"project/p/instances/i", "t9"}, {"projects/p/instance/i", "t9"}, {"projects/..p/instances/i.", "t9"}, {parentB, "t9"}} {
+			{parentA, "./t1"}, {parentA, "t1/sub"}, {parentA, "t1.table.proto"}, {parentA, "x.table.proto.tmp"}, {parentA, "table.proto"}, {parentA, "a.table.protox"}, {parentA, strings.Repeat("L", 50)}, {parentA, strings.Repeat("L", 51)}, {parentA, strings.Repeat("L", 255)}, {parentA, "nul\x00byte"}, {parentA, "caf\xc3\xa9"}, {"", "t9"}, {".", "t9"}, {"/abs", "t9"}, {"../x", "t9"}, {"plain", "t9"}, {"projects/p/instances", "t9"}, {"projects//instances/i", "t9"}, {"projects/p/instances/i/", "t9"}, {"projects/p/instances/i/tables/t1", "t9"}, {"projects/../instances/i", "t9"}, {"projects/p/instances/.", "t9"}, {"project/p/instances/i", "t9"}, {"projects/p/instance/i", "t9"}, {"projects/..p/instances/i.", "t9"}, {parentB, "t9"}} {
 			mk := Call{Req: Req{Kind: "create", Parent: nm[0], Tid: nm[1], Fams: []FamDef{{Name: "other"}}}, Now: 1}
 			prog := append(append([]Call{}, c20Seed()...), mk, Call{Req: Req{Kind: "get", Table: tname(nm[0], nm[1])}, Now: 1}, Call{Req: Req{Kind: "read", Table: t}, Now: 1000}, Call{Req: Req{Kind: "get", Table: t}, Now: 1000})
 			tasks = append(tasks, Task{en, "table-names", prog})
@@ -146,7 +146,7 @@ func genC20(out, tier string, rng *rand.Rand) {
 	}
 	// table ids that name another table's files on the disk engine ("t2/../t1", "./t1", ...): whatever
 	// the answer, the seeded table must keep its rows, on the running server and after a restart
-	for _, id := range []string{"t2/../t1", "./t1", "t1/", "t1/.", "../tables/t1", "t1/sub", "..", "../../../i/tables/t1"} {
+	for _, id := range []string{"t2/../t1", "./t1", "t1/", "t1/.", "../tables/t1", "t1/sub", "..", "../../../i/tables/t1", "t1.table.proto", "t1.table.proto.tmp"} {
 		st, cleanup := engines()[2].mk()
 		e := NewEmu(st)
 		var obs []Resp
@@ -169,6 +169,39 @@ func genC20(out, tier string, rng *rand.Rand) {
 		closeEmu(e)
 		cleanup()
 		pc := Case{Store: "leveldb-disk", Tag: "table-id-traversal", Prog: prog, Obs: obs}
+		js, _ := json.Marshal(pc)
+		sink.AddOracleOnly(pc, string(js), js, true)
+	}
+	// a CreateTable that is acknowledged must be there after a restart, whatever the id looks like
+	// (ids near the file-name limit: the directory name fits, "<id>.table.proto" does not)
+	for _, n := range []int{40, 50, 51, 200, 243, 244, 250, 255} {
+		id := strings.Repeat("L", n)
+		st, cleanup := engines()[2].mk()
+		e := NewEmu(st)
+		mk := Call{Req: Req{Kind: "create", Parent: parentA, Tid: id, Fams: []FamDef{{Name: "cf"}}}, Now: 1}
+		wr := Call{Req: Req{Kind: "mutate", Table: tname(parentA, id), Key: []byte("k"), Muts: []Mutation{{Kind: "set", Fam: "cf", Q: []byte("q"), Ts: 1000, V: []byte("v")}}}, Now: 1000}
+		prog := []Call{mk, wr}
+		obs := []Resp{e.Exec(mk), e.Exec(wr)}
+		if obs[0].Code == 0 && obs[1].Code == 0 {
+			if ds, ok := st.(bttest.LeveldbDiskStorage); ok {
+				cp, err := os.MkdirTemp(tmpRoot, "img")
+				if err == nil {
+					if copyTree(ds.Root, cp) == nil {
+						e2 := NewEmu(bttest.LeveldbDiskStorage{Root: cp, ErrLog: func(error, string) {}})
+						g := e2.ExecFast(Call{Req: Req{Kind: "get", Table: tname(parentA, id)}})
+						r := e2.ExecFast(Call{Req: Req{Kind: "read", Table: tname(parentA, id)}})
+						if g.Code != 0 || r.Code != 0 || len(r.Rows) != 1 {
+							obs[1].Notes = append(obs[1].Notes, fmt.Sprintf("a table with a %d-character id was created and written (both acknowledged) but is not served after a restart", n))
+						}
+						closeEmu(e2)
+					}
+					os.RemoveAll(cp)
+				}
+			}
+		}
+		closeEmu(e)
+		cleanup()
+		pc := Case{Store: "leveldb-disk", Tag: "long-table-id", Prog: prog, Obs: obs}
 		js, _ := json.Marshal(pc)
 		sink.AddOracleOnly(pc, string(js), js, true)
 	}
